@@ -119,6 +119,45 @@ Proof.
   destruct o; cbn [c08_step]; try exact H; try (apply derive_present_mono; exact H).
 Qed.
 
+(* ---- what is stored is never rewritten: in particular a variable the SOURCE supplied (a file's own edge
+   table, its own face centres, ...) keeps, whatever is derived afterwards, exactly the value it had ---- *)
+Lemma var_eqb_neq_present s v w x : c08_lookup s v = Some x -> c08_present s w = false -> c08_var_eqb v w = false.
+Proof.
+  intros Hv Hw. destruct (c08_var_eqb v w) eqn:E; [|reflexivity].
+  apply var_eqb_eq in E. subst w. unfold c08_present in Hw. rewrite Hv in Hw. discriminate.
+Qed.
+
+Lemma derive_lookup_frozen fuel : forall s w v x, c08_lookup s v = Some x -> c08_lookup (c08_derive fuel s w) v = Some x.
+Proof.
+  induction fuel as [|f IH]; intros s w v x H; simpl; [exact H|].
+  destruct (c08_present s w) eqn:Ew; [exact H|].
+  simpl. rewrite (var_eqb_neq_present s v w x H Ew).
+  clear Ew. generalize dependent s. induction (c08_deps w) as [|d l IHl]; intros s H; simpl; [exact H|].
+  apply IHl. apply IH. exact H.
+Qed.
+
+Theorem run_lookup_frozen ops : forall s v x, c08_lookup s v = Some x -> c08_lookup (c08_run s ops) v = Some x.
+Proof.
+  induction ops as [|o ops IH]; intros s v x H; simpl; [exact H|]. apply IH.
+  destruct o; cbn [c08_step]; try exact H; apply derive_lookup_frozen; exact H.
+Qed.
+
+(* and reading it back returns that stored value, not a recomputed one *)
+Theorem observe_frozen ops s v x : c08_lookup s v = Some x -> c08_observe (c08_run s ops) v = Some x.
+Proof.
+  intros H. unfold c08_observe. apply derive_lookup_frozen. apply run_lookup_frozen. exact H.
+Qed.
+
+Theorem stored_never_rewritten ops s v x :
+  c08_lookup s v = Some x -> c08_lookup (c08_run s ops) v = Some x /\ c08_observe (c08_run s ops) v = Some x.
+Proof. intros H. split; [exact (run_lookup_frozen ops s v x H)|exact (observe_frozen ops s v x H)]. Qed.
+
+Example frozen_source_edges :
+  (* a grid whose source supplied the edge table (stored value marked Other to tell it from a derived one):
+     deriving face_edge, edge_face, face_face, edge distances ... never touches it *)
+  c08_lookup (c08_run [(V_EN, Other)] [OpGet V_FE; OpGet V_FF; OpGet V_END; OpGet V_BOUNDS; OpAreas]) V_EN = Some Other.
+Proof. vm_compute. reflexivity. Qed.
+
 (* ================= (3) several grids ================= *)
 Lemma update_nth_other {A} (f : A -> A) (l : list A) : forall i j, i <> j -> nth_error (c08_update i f l) j = nth_error l j.
 Proof.
